@@ -634,3 +634,30 @@ Print Assumptions solve_ok.
 Print Assumptions walk_no_fuel.
 Print Assumptions find_optimal_solution_no_fuel.
 Print Assumptions first_token_spaces_irrelevant.
+
+(* ------------------------------------------------------------------ *)
+(* non-vacuity: a concrete line that must wrap.  `Foo(Bar, Baz);` at width 8, indentation 2, continuation 4 *)
+Definition ex_infos : list tokinfo :=
+  [mkTI TT_Identifier 0 3 None; mkTI (TT_Op OK_LParen) 0 1 None; mkTI TT_Identifier 0 3 None; mkTI (TT_Op OK_Comma) 0 1 None;
+   mkTI TT_Identifier 1 3 None; mkTI (TT_Op OK_RParen) 0 1 None; mkTI (TT_Op OK_Semicolon) 0 1 None; mkTI TT_Eof 0 0 None].
+Definition ex_lines : list lline :=
+  [mkLine LLT_Unknown 1 None [0; 1; 2; 3; 4; 5; 6]%nat; mkLine LLT_Eof 0 None [7]%nat].
+Definition ex_W : wsettings := mkWS 8 200 false 2 4.
+Definition ex_lvs := mk_lviews ex_infos ex_lines.
+
+Example ex_events :
+  rev (ss_log (wrap_phase1 ex_W ex_infos ex_lines)) =
+  [Ev_S 0 (WS_ok 1048591 4 4); Ev_D 0 None 3 true; Ev_D 1 None 4 false; Ev_D 2 (Some (false, 1, 1)) 9 false;
+   Ev_D 3 None 10 false; Ev_D 4 (Some (false, 1, 1)) 9 false; Ev_D 5 (Some (false, 1, 0)) 3 false; Ev_D 6 None 4 false].
+Proof. vm_compute. reflexivity. Qed.
+
+(* the hypotheses of solve_ok / find_optimal_solution_ok are satisfiable: the search returns a solution *)
+Example ex_solve :
+  match nth_error ex_lvs 0 with
+  | Some lv => match solve ex_W ex_lvs (main_fuel ex_W) 3 sst_init lv (1, 0) FD_Break with
+               | (st', Some s) => length (sol_decs s) = 7%nat /\ ss_fuel_err st' = false
+               | _ => False
+               end
+  | None => False
+  end.
+Proof. vm_compute. split; reflexivity. Qed.
